@@ -38,6 +38,10 @@ def run(ctx):
     combos = combos[:6 if not ctx.thorough else 30]
     an, af, _ = hier.air_builder()
     combos.append(((an, af, 'nonsym'), ('upwind-5x5', hier.nonsym_matrix(5))))
+    # badly scaled copies (||M b|| << ||b||, initial residual of a random guess >> ||b||): tolerances must stay relative
+    for (bb, mm) in list(combos[:2]) + [combos[-1]]:
+        Asc = mm[1] * 1000.0
+        combos.append((bb, (mm[0] + '*1e3', Asc)))
     for (bname, f, kind), (mname, A) in combos:
         np.random.seed(ctx.seed)
         try:
@@ -115,18 +119,18 @@ def run(ctx):
         sym = kind == 'sym'
         names = (['cg', 'cr'] if sym else []) + ['gmres', 'bicgstab', 'fgmres', 'cgnr', 'cgs', 'qmr', 'tfqmr', 'lgmres', 'gcrotmk'] + (['minres'] if sym else [])
         for name in names:
-            for tol in (1e-4, 1e-9):
+            for tol, mxit in ((1e-4, 60), (1e-9, 60), (1e-4, 2), (1e-6, 4)):
                 res = []
-                case = dict(base, accel=name, tol=tol)
+                case = dict(base, accel=name, tol=tol, maxiter=mxit)
                 ctx.mark(case)
                 try:
                     with warnings.catch_warnings():
                         warnings.simplefilter('ignore')
-                        x, info = ml.solve(b, tol=tol, maxiter=60, accel=name, residuals=res, return_info=True)
+                        x, info = ml.solve(b, tol=tol, maxiter=mxit, accel=name, residuals=res, return_info=True)
                 except Exception as e:   # noqa
                     ctx.fail('accel=%s/raises' % name, repr(e), case)
                     continue
-                ctx.case((bname, mname, name, tol), True)
+                ctx.case((bname, mname, name, tol, mxit), True)
                 ctx.count('accel:' + name)
                 if not res:
                     ctx.fail('accel=%s/history-empty' % name, 'residual history not populated', case)
@@ -147,11 +151,14 @@ def blackbox(ctx):
     rng = ctx.sub('bb')
     probs = [('poisson-7x7', sp.csr_array(poisson((7, 7), format='csr')), True),
              ('graphlap', sp.csr_array(gen_lap(rng, 30)), True),
-             ('upwind-7x7', hier.nonsym_matrix(7), False)]
+             ('upwind-7x7', hier.nonsym_matrix(7), False),
+             # large enough for a real multilevel iteration (the black box coarsens down to 500 unknowns), badly scaled
+             ('poisson-30x30*1e3', sp.csr_array(poisson((30, 30), format='csr') * 1000.0), True),
+             ('upwind-30x30*1e3', sp.csr_array(hier.nonsym_matrix(30) * 1000.0), False)]
     for name, A, spd in probs:
         n = A.shape[0]
         existing = None
-        for fmt in ('csr', 'bsr', 'dense'):
+        for fmt in ('csr', 'bsr', 'dense') if n < 200 else ('csr',):
             Af = A if fmt == 'csr' else (sp.bsr_array(A, blocksize=(1, 1)) if fmt == 'bsr' else A.toarray())
             for shape in ('vec', 'col'):
                 for tol in (1e-5, 1e-9):
